@@ -1019,6 +1019,11 @@ func escapeUTF(in []byte) []byte {
 }
 
 func newRegexp(pat []byte) (*binaryregexp.Regexp, error) {
+	// The pattern must be well formed on its own: wrapped as below, "a)|(b" would compile.
+	if _, err := binaryregexp.Compile(string(escapeUTF(pat))); err != nil {
+		log.Printf("Bad pattern %q: %v", pat, err)
+		return nil, err
+	}
 	re, err := binaryregexp.Compile("^(?:" + string(escapeUTF(pat)) + ")$") // match entire target
 	if err != nil {
 		log.Printf("Bad pattern %q: %v", pat, err)
